@@ -164,16 +164,22 @@ class Check(PropertyCheck):
         for ln in [2, 3, 5, 9]:
             for k in (0, self.rng.below(12)):
                 out.append(("mid", "right", ln, "*", "*", k, self.rng.below(4)))
+        # an arrow head at the far end of a line that ends in a bullet (both orders of appearance in the text)
+        for d in DIRS:
+            for ln in [2, 4, self.rng.range(5, 10)]:
+                back = {"right": "<", "left": ">", "down": "^", "up": "v", "downright": "^", "upleft": "v",
+                        "downleft": "^", "upright": "v"}[d]
+                out.append(("arrowbullet", d, ln, self.rng.choice("*oO"), back, self.rng.below(10), self.rng.below(5)))
         return out
 
     @staticmethod
     def multi_bullet_text(kind, d, ln, b1, b2, k, n):
         """returns (text, [(cell, bullet char)])"""
-        if kind == "two":
+        if kind in ("two", "arrowbullet"):
             t, cells, endc = draw_run(d, ln + 1, b1, k, n)
             rows = [list(r) for r in t.split("\n")]
             rows[cells[0][1]][cells[0][0]] = b2
-            return "\n".join("".join(r) for r in rows), [(endc, b1), (cells[0], b2)]
+            return "\n".join("".join(r) for r in rows), ([(endc, b1), (cells[0], b2)] if kind == "two" else [(endc, b1)])
         row = " " * k + "-" * ln + "*" + "-" * ln
         return "\n" * n + row, [((k + ln, n), "*")]
 
@@ -197,6 +203,12 @@ class Check(PropertyCheck):
             except svgcanon.ParseError:
                 continue
             els = [e for _, e in svgcanon.flat_geometry(root)]
+            if c[0] == "arrowbullet":
+                polys = [e for e in els if e.tag == "polygon"]
+                if len(polys) != 1 or "filled" not in polys[0].attrs.get("class", "").split() or len(polys[0].attrs.get("points", "").split()) != 3:
+                    fails.append(Failure("the arrow head at the other end of a bullet line is not one filled triangle", case,
+                                         {"elements": [(e.tag, e.attrs, e.text) for e in els][:6]}))
+                    continue
             if any(e.tag == "text" for e in els) or any(e.tag == "circle" for e in els):
                 fails.append(Failure("a bullet on a line is left as a bare circle or as text", case,
                                      {"elements": [(e.tag, e.attrs, e.text) for e in els][:6]}))
